@@ -23,7 +23,7 @@ def profiles(nmax, dmax, nmin=1):
             yield ds
 
 
-def build(macro, depths, flavour=None, handler=None, lets=(), rich=False, readers=(), hpos=None, wrap=False, init_ev=False, gated=None, failop=None):
+def build(macro, depths, flavour=None, handler=None, lets=(), rich=False, readers=(), hpos=None, wrap=False, init_ev=False, gated=None, failop=None, hexpr_ev=False, err_after=False):
     """lets: iterable of (branch, is_mut); readers: iterable of (reader_branch, step>=1) where the capture of
     that branch-step snapshots every visible name; rich: every step >= 1 carries a capture, an error-side
     callback and a non-closure operand (C06); failop (Option flavour, sync): how a step fails — None (`=>` and_then) | "filter"
@@ -106,6 +106,9 @@ def build(macro, depths, flavour=None, handler=None, lets=(), rich=False, reader
                     items.append(Op("->", [O("lgf(\"%d.%d.o\")" % (b, k))]))
                 else:
                     items.append(Op("=>", [main], deferred=True))
+                if err_after:
+                    # an error-side operator with a BLOCK operand right after the capture of the same step
+                    items.append(Op("!>", [B("ev0(\"c.%d.%d.2\"); |e: i32| e" % (k, b))]))
             elif failop:
                 fs = slot(b, k)
                 if failop == "filter":
@@ -141,7 +144,11 @@ def build(macro, depths, flavour=None, handler=None, lets=(), rich=False, reader
         else:
             okv = ("Some(%s)" if flavour == "Opt" else "Ok::<Vec<i32>, i32>(%s)") % vec
             body = "ready(%s)" % okv if is_async else okv
-        h = (handler, "|%s| { %s %s }" % (args, log, body), hpos)
+        htext = "|%s| { %s %s }" % (args, log, body)
+        if hexpr_ev:
+            # the handler OPERAND itself has a visible evaluation (its own trace key `hx`: how often, not when)
+            htext = "{ ev0(\"hx.x.e\"); %s }" % htext
+        h = (handler, htext, hpos)
     return Program(macro, branches, handler=h, flavour=flavour)
 
 
